@@ -75,6 +75,7 @@ static const struct sysdesc SYS[] = {
     {SYS_fsetxattr, "fsetxattr", K_FD0}, {SYS_fgetxattr, "fgetxattr", K_FD0}, {SYS_flistxattr, "flistxattr", K_FD0},
     {SYS_setxattr, "setxattr", K_PATH0}, {SYS_lsetxattr, "lsetxattr", K_PATH0},
     {SYS_sendfile, "sendfile", K_FD0}, {SYS_chdir, "chdir", K_PATH0}, {SYS_umask, "umask", K_NONE},
+    {SYS_dup, "dup", K_FD0}, {SYS_dup2, "dup2", K_FD0}, {SYS_dup3, "dup3", K_FD0}, {SYS_fcntl, "fcntl", K_FD0},
     {SYS_exit_group, "exit_group", K_NONE}, {SYS_clone, "clone", K_NONE},
 #ifdef SYS_clone3
     {SYS_clone3, "clone3", K_NONE},
